@@ -242,6 +242,12 @@ func filterMightContain(f Filter, item []byte) bool {
 func (tfs *tagFamilyFilters) Range(tagName string, rangeOpts index.RangeOpts) (bool, error) {
 	for _, tff := range tfs.tagFamilyFilters {
 		if tf, ok := (*tff)[tagName]; ok {
+			if len(tf.min) == 0 || len(tf.max) == 0 {
+				// No bounds were recorded for this block (the tag was not covered by a
+				// skipping rule when it was written, or the block was rewritten by a
+				// merge): nothing can be concluded, so the block must not be skipped.
+				continue
+			}
 			if rangeOpts.Lower != nil {
 				lower, ok := rangeOpts.Lower.(*index.FloatTermValue)
 				if !ok {
